@@ -26,7 +26,7 @@ from asl.cfg import Node, cfg_of
 from asl.flow import reachable
 from asl.loader import Unit, norm, own_nodes
 from asl.values import USERISH
-from .common import real_units
+from .common import real_units, raised_class
 
 LEVEL = {
     "decided": "C06: (R06.1) census of every except handler against the idiom table H1-H5 — StopAsyncIteration "
@@ -170,7 +170,7 @@ def _census(ctx, u: Unit) -> None:
                     if sub.exc is None:
                         ctx.ok("R06.2", u, "bare re-raise inside handler", line=sub.lineno)
                         continue
-                    cls = norm(sub.exc.func) if isinstance(sub.exc, ast.Call) else norm(sub.exc)
+                    cls = raised_class(ctx, u, sub)
                     ok = (u.short, cls) in PROTOCOL_RAISES
                     ctx.check(ok, "R06.2", u, sub,
                               f"`raise {cls}` inside `{label}` is a documented protocol raise" if ok else
@@ -279,8 +279,11 @@ def _no_reuse(ctx, u: Unit) -> None:
             return b.tag == "exc" or any(k == "handler" for (k, _x) in b.regions)
 
         cont = reachable([start], edge_ok=exc_edge)
-        again = [m for m in cont if m.kind == "pull" or is_user_call(ctx, u, m) or
-                 (_is_step_await(ctx, u, m) and not _closing(m))]
+        from .ownership import _names_aclose
+        again = [m for m in cont if m.kind == "pull"
+                 or (is_user_call(ctx, u, m) and not _names_aclose(ctx, u, m.ast.func, m))
+                 or (_is_step_await(ctx, u, m) and not _closing(m)
+                     and not _names_aclose(ctx, u, m.info.get("value"), m))]
         ctx.count("failure_continuations")
         if again:
             ctx.fail("R06.4", u, again[0], "a source or user callable is used again on the exceptional "
